@@ -85,6 +85,8 @@ THEOREMS = [
     "Cotengra.C08.record_costs_true_partial",
     "Cotengra.C08.record_costs_counterexample",
     "Cotengra.C08.computeScore_total",
+    "Cotengra.C08.scoring_failure_isolated",
+    "Cotengra.C08.failed_trial_does_not_affect_best",
     "Cotengra.C08.finite_score_has_tree",
     "Cotengra.C08.winner_costs_true",
     "Cotengra.C08.hyper_search_correct_serial",
@@ -147,14 +149,24 @@ def scripted_path_fn(inputs, output, size_dict, tid=0, kind="ok", k=1, delay=0.0
     if kind == "exc":
         raise ValueError("scripted trial failure")
     tree = ctg.ContractionTree.from_path(inputs, output, size_dict, path=variant_path(len(inputs), variant))
-    tree.verif_val = float("inf") if kind == "okinf" else k * BIG
+    # "scoreexc" / "overflow": the tree is built fine, the objective then fails on it
+    tree.verif_val = float("inf") if kind == "okinf" else kind if kind in SCORE_FAIL_KINDS else k * BIG
     tree.verif_tid = tid
     return tree
 
 
+SCORE_FAIL_KINDS = ("scoreexc", "overflow")
+FAIL_KINDS = ("bad", "exc") + SCORE_FAIL_KINDS
+
+
 def scripted_objective(trial):
     ensure_basic_quantities_are_computed(trial)
-    return trial["tree"].verif_val
+    v = trial["tree"].verif_val
+    if v == "scoreexc":
+        raise ValueError("scripted objective rejects this tree")
+    if v == "overflow":
+        return 10.0 ** 400  # OverflowError, as an objective on an astronomically expensive tree
+    return v
 
 
 def _optlib_init(self, methods, space, script=None, **_):
@@ -233,7 +245,7 @@ class ScriptedExecutor:
 
     def _poll(self, fut):
         self.polls += 1
-        if self.polls > 20000:  # a driver that never looks at the finished future: let all finish
+        if self.polls > 3000:  # a driver that never looks at the finished future: let all finish
             return True
         if fut not in self.pending:  # a future the driver should have dropped
             return False
@@ -293,9 +305,10 @@ def make_script(rng, total, mode, allfail=False):
     script = []
     for tid in range(total + 2):  # two spare settings: drawn only by a budget overrun
         u = rng.random()
-        kind = "ok" if u < 0.68 else "okinf" if u < 0.76 else "bad" if u < 0.88 else "exc"
+        kind = ("ok" if u < 0.62 else "okinf" if u < 0.69 else "bad" if u < 0.78 else "exc" if u < 0.86
+                else "scoreexc" if u < 0.94 else "overflow")
         if allfail:
-            kind = rng.choice(["bad", "exc", "okinf"])
+            kind = rng.choice(["bad", "exc", "okinf", "scoreexc", "overflow"])
         delay = 0.0
         if mode in ("threads", "procs"):
             delay = rng.choice([0.0, 0.0, 0.0003, 0.0008, 0.0015])
@@ -321,7 +334,7 @@ def gen_scripted(rng, tier, mode=None):
     case = {"kind": "scripted", "net": small_net(rng).json(), "mode": mode, "searches": searches,
             "script": script, "mts": rng.choice([None, None, 0, 1, 3]),
             "on_error": rng.choice(["warn", "ignore"])}
-    if not any(p["kind"] == "exc" for _, p in script) and rng.random() < 0.3:
+    if not any(p["kind"] in ("exc",) + SCORE_FAIL_KINDS for _, p in script) and rng.random() < 0.3:
         case["on_error"] = "raise"
     if mode != "serial":
         case["workers"] = rng.randint(1, 3)
@@ -371,6 +384,10 @@ def run_scripted(case):
                             "zero": 0.0, "large": 1e9}[s["stop"]]
             n0, sub0 = len(opt.scores), opt._verif_next
             ncancel0 = len(ex.cancel_calls) if ex else 0
+            if ex:  # whatever an aborted earlier search left behind is stale
+                ex.pending.clear()
+                ex.current = None
+                ex.polls = 0
             err, tree = None, None
             try:
                 tree = opt.search(net.sym_inputs(), net.sym_output(), net.sym_sizes())
@@ -612,8 +629,16 @@ def sig_scripted(case, kind):
     return {"site": "HyperOptimizer._search", "part": "scripted", "mode": case["mode"], "kind": kind}
 
 
+def report(ctx, case, bad, what):
+    ctx.violation(sig_of(case, bad), {"case": case, "failed": [bad[0], str(bad[1])[:400]]}, what)
+
+
 def check_scripted(ctx, drv, case):
-    obs = run_scripted(case)
+    obs, bad0 = judge(case)
+    if obs is None:
+        ctx.case(case, nontrivial=True)
+        report(ctx, case, bad0, f"scripted hyper-optimizer search ({case['mode']}): {bad0[0]} {bad0[1]}")
+        return False
     total = sum(o["n_new"] for o in obs)
     ctx.count("A:mode:" + case["mode"])
     ctx.count("A:searches:%d" % len(case["searches"]))
@@ -638,14 +663,16 @@ def check_scripted(ctx, drv, case):
     nontrivial = total > 1 and (tie or len(fin) < len(last["scores"]) or case["mode"] != "serial"
                                 or any(o["n_new"] < s["max_repeats"] for s, o in zip(case["searches"], obs)))
     ctx.case(case, nontrivial=nontrivial)
-    bad = oracle_scripted(case, obs)
+    bad = bad0
     if bad is not None:
-        ctx.violation(sig_scripted(case, bad[0]), {"case": case, "failed": [bad[0], bad[1]]},
-                      f"scripted hyper-optimizer search ({case['mode']}): {bad[0]}")
+        report(ctx, case, bad, f"scripted hyper-optimizer search ({case['mode']}): {bad[0]}")
         return False
     if drv is not None:
         soft = {}
-        diff = model_scripted(drv, case, obs, soft)
+        try:
+            diff = model_scripted(drv, case, obs, soft)
+        except Exception as e:  # the comparison itself must not take the check down
+            diff = f"comparison failed: {type(e).__name__}: {e}"
         for k, v in soft.items():
             ctx.count("A:soft:" + k, v)
         ctx.traces += 1
@@ -779,7 +806,9 @@ def run_worker(case):
             return "missing"
         return fig(trial[k])
 
-    o = {"raised": False, "score": None if math.isinf(trial["score"]) else 0,
+    sc = trial.get("score", "missing") if isinstance(trial, dict) else "missing"
+    o = {"raised": False,
+         "score": sc if sc == "missing" else "nan" if sc != sc else None if math.isinf(sc) else 0,
          "flops": g("flops"), "write": g("write"), "size": g("size"),
          "tree": tree.id if tree is not None else None,
          "calls": list(tree.calls) if tree is not None else None,
@@ -793,10 +822,15 @@ def oracle_worker(case, o, tree):
         if case["on_error"] != "raise":
             return ("worker-raised", o["exc"])
         return None
+    if o["score"] in ("missing", "nan"):
+        return ("score-" + o["score"], o)
     if tree is None:
         if [o["score"], o["flops"], o["write"], o["size"]] != [None, None, None, None]:
             return ("failure-record", o)
         return None
+    if case["objective"] == "custom-raise":
+        # the objective failed on this tree: the trial must have become the inf record
+        return ("failed-scoring-not-skipped", o)
     st = tree.contract_stats()
     if [o["flops"], o["write"], o["size"]] != [st["flops"], st["write"], st["size"]]:
         kind = "figures-missing" if "missing" in (o["flops"], o["write"], o["size"]) else "figures-stale"
@@ -818,18 +852,23 @@ def sig_worker(case, kind):
 
 
 def check_worker(ctx, drv, case, facts):
-    o, tree = run_worker(case)
+    obs, bad0 = judge(case)
     ws = [w for w in WRAPPERS if case["opts"][w]]
+    if obs is None:
+        ctx.case(case, nontrivial=True)
+        report(ctx, case, bad0, f"trial record of ComputeScore (objective={case['objective']}, wrappers="
+               f"{'+'.join(ws) or 'none'}): {bad0[0]} {bad0[1]}")
+        return False
+    o, tree = obs
     ctx.count("B:wrappers:%d" % len(ws))
     ctx.count("B:objective:" + case["objective"])
     ctx.count("B:raw:" + ("tree" if isinstance(case["raw"], int) else case["raw"]))
     ctx.count("B:outcome:" + ("raised" if o["raised"] else "failrec" if tree is None else "record"))
     ctx.case(case, nontrivial=bool(ws) or case["objective"] not in ("flops",))
-    bad = oracle_worker(case, o, tree)
+    bad = bad0
     if bad is not None:
-        ctx.violation(sig_worker(case, bad[0]), {"case": case, "failed": [bad[0], str(bad[1])[:300]]},
-                      f"trial record of ComputeScore (objective={case['objective']}, wrappers="
-                      f"{'+'.join(ws) or 'none'}): {bad[0]}")
+        report(ctx, case, bad, f"trial record of ComputeScore (objective={case['objective']}, wrappers="
+               f"{'+'.join(ws) or 'none'}): {bad[0]}")
         return False
     if drv is None:
         return True
@@ -869,7 +908,18 @@ def check_worker(ctx, drv, case, facts):
 # 'e,ba,cd,ec,db->ba' (a C05 matter, reported to the lead); a hanging trial would stall the check.
 REAL_METHODS = ["greedy", "labels", "random-greedy"]
 KAHYPAR_METHODS = ["kahypar", "kahypar-balanced", "kahypar-agglom"]  # native, occasionally seconds per call
-REAL_OBJECTIVES = ["flops", "size", "write", "combo", "limit", "combo-256"]
+REAL_OBJECTIVES = ["flops", "size", "write", "combo", "limit", "combo-256", "picky"]
+
+
+def picky_objective(trial):
+    """A user objective that scores by flops but rejects (raises on) about half of the trees:
+    those trials must be skipped without affecting the others."""
+    st = trial["tree"].contract_stats()
+    if (int(st["flops"]) + int(st["write"])) % 2:
+        if int(st["size"]) % 2:
+            raise ValueError("picky objective rejects this tree")
+        return 10.0 ** 400  # OverflowError
+    return math.log2(st["flops"] + 1.0)
 OPTION_SETS = ["none", "slice", "reconf", "slice_reconf", "anneal", "anneal+slice", "slice+reconf",
                "reconf-forest"]
 
@@ -905,12 +955,17 @@ def gen_real(rng, tier):
     methods = rng.sample(REAL_METHODS, k)
     if tier != "quick" and rng.random() < 0.1:
         methods[0] = rng.choice(KAHYPAR_METHODS)
-    return {"kind": "real", "net": net.json(), "methods": methods,
+    case = {"kind": "real", "net": net.json(), "methods": methods,
             "objective": rng.choice(REAL_OBJECTIVES), "options": rng.choice(OPTION_SETS),
             "max_repeats": rng.randint(2, 5), "seed": rng.randrange(1 << 16),
             "target_size": 2 ** rng.randint(2, 5),
             "pool": rng.choice(["serial", "serial", "serial", "threads", "procs"]),
             "searches": rng.choice([1, 1, 2])}
+    if case["objective"] == "picky":
+        # a plain callable has no score_slice_index / DP objective: post-processing needs an Objective
+        case["options"] = "none"
+        case["max_repeats"] = rng.randint(3, 6)
+    return case
 
 
 def run_real(case):
@@ -919,7 +974,8 @@ def run_real(case):
     out = {"searches": []}
     with warnings.catch_warnings():
         warnings.simplefilter("ignore")
-        opt = ctg.HyperOptimizer(methods=case["methods"], optlib="random", minimize=case["objective"],
+        minimize = picky_objective if case["objective"] == "picky" else case["objective"]
+        opt = ctg.HyperOptimizer(methods=case["methods"], optlib="random", minimize=minimize,
                                  max_repeats=case["max_repeats"], parallel=par, seed=case["seed"],
                                  **real_kwargs(case))
         for _ in range(case["searches"]):
@@ -927,7 +983,9 @@ def run_real(case):
             try:
                 tree = opt.search(net.sym_inputs(), net.sym_output(), net.sym_sizes())
             except Exception as e:
-                out["searches"].append({"err": type(e).__name__ + ":" + str(e)[:60]})
+                out["searches"].append({"err": type(e).__name__ + ":" + str(e)[:60],
+                                        "n_new": len(opt.scores) - n0,
+                                        "all_inf": all(math.isinf(x) for x in opt.scores)})
                 break
             b = opt.best
             st = tree.contract_stats()
@@ -962,7 +1020,8 @@ def diagnose_all_fail(case):
     try:
         with warnings.catch_warnings():
             warnings.simplefilter("ignore")
-            opt = ctg.HyperOptimizer(methods=case["methods"], optlib="random", minimize=case["objective"],
+            opt = ctg.HyperOptimizer(methods=case["methods"], optlib="random",
+                                     minimize=picky_objective if case["objective"] == "picky" else case["objective"],
                                      max_repeats=1, parallel=False, seed=case["seed"],
                                      on_trial_error="raise", **real_kwargs(case))
             opt.search(net.sym_inputs(), net.sym_output(), net.sym_sizes())
@@ -974,6 +1033,9 @@ def diagnose_all_fail(case):
 def oracle_real(case, out):
     for s in out["searches"]:
         if s["err"] is not None:
+            if case["objective"] == "picky" and s["err"].startswith("KeyError:'tree'") and s["all_inf"] \
+                    and s["n_new"] == case["max_repeats"]:
+                break  # the user objective rejected every tree: all trials ran, none could win
             why = diagnose_all_fail(case) if s["err"].startswith("KeyError:'tree'") else s["err"]
             return ("search-raised", why)
         if len(set(s["lens"])) != 1:
@@ -1009,7 +1071,12 @@ def sig_real(case, bad):
 
 
 def check_real(ctx, case):
-    out = run_real(case)
+    out, bad0 = judge(case)
+    if out is None:
+        ctx.case(case, nontrivial=True)
+        report(ctx, case, bad0, f"HyperOptimizer(minimize={case['objective']!r}, options={case['options']}): "
+               f"{bad0[0]} {bad0[1]}")
+        return False
     ctx.count("C:objective:" + case["objective"])
     ctx.count("C:options:" + case["options"])
     ctx.count("C:pool:" + case["pool"])
@@ -1020,12 +1087,13 @@ def check_real(ctx, case):
             ctx.count("C:sliced_result")
         if s.get("failed_trials"):
             ctx.count("C:searches_with_failed_trials")
+        if s.get("err") and s.get("all_inf"):
+            ctx.count("C:every_tree_rejected_by_objective")
     ctx.case(case, nontrivial=case["options"] != "none" or case["pool"] != "serial")
-    bad = oracle_real(case, out)
+    bad = bad0
     if bad is not None:
-        ctx.violation(sig_real(case, bad), {"case": case, "failed": [bad[0], str(bad[1])[:400]]},
-                      f"HyperOptimizer(minimize={case['objective']!r}, options={case['options']}): {bad[0]} "
-                      f"{str(bad[1])[:120]}")
+        report(ctx, case, bad, f"HyperOptimizer(minimize={case['objective']!r}, options={case['options']}): "
+               f"{bad[0]} {str(bad[1])[:120]}")
         return False
     return True
 
@@ -1143,22 +1211,46 @@ def all_forced_orders(pre, r):
     return out
 
 
-def replay_case(ctx, case):
-    """Implementation-side oracle only. Returns (holds, signature, what)."""
+def judge(case):
+    """Run the real code on `case` and ask the implementation-side oracle. Never raises: whatever
+    the real code returns or raises unexpectedly while it is run / observed becomes a verdict.
+    Returns (observation | None, bad | None)."""
+    import traceback
+    kind = case.get("kind")
+    try:
+        if kind == "scripted":
+            obs = run_scripted(case)
+            return obs, oracle_scripted(case, obs)
+        if kind == "worker":
+            o, tree = run_worker(case)
+            return (o, tree), oracle_worker(case, o, tree)
+        if kind == "real":
+            out = run_real(case)
+            return out, oracle_real(case, out)
+    except Exception as e:
+        tb = traceback.extract_tb(e.__traceback__)
+        where = "%s:%d" % (os.path.basename(tb[-1].filename), tb[-1].lineno) if tb else "?"
+        return None, ("unexpected-exception", f"{type(e).__name__}: {str(e)[:80]} at {where}")
+    raise ValueError("unknown replay kind")
+
+
+def sig_of(case, bad):
     kind = case.get("kind")
     if kind == "scripted":
-        obs = run_scripted(case)
-        bad = oracle_scripted(case, obs)
-        return bad is None, (sig_scripted(case, bad[0]) if bad else None), bad
-    if kind == "worker":
-        o, tree = run_worker(case)
-        bad = oracle_worker(case, o, tree)
-        return bad is None, (sig_worker(case, bad[0]) if bad else None), bad
-    if kind == "real":
-        out = run_real(case)
-        bad = oracle_real(case, out)
-        return bad is None, (sig_real(case, bad) if bad else None), bad
-    raise ValueError("unknown replay kind")
+        sig = sig_scripted(case, bad[0])
+    elif kind == "worker":
+        sig = sig_worker(case, bad[0])
+    else:
+        sig = sig_real(case, bad)
+    if bad[0] == "unexpected-exception":
+        sig["error"] = str(bad[1]).split(":")[0]
+    return sig
+
+
+def replay_case(ctx, case):
+    """Implementation-side oracle only. Returns (holds, signature, what)."""
+    obs, bad = judge(case)
+    return bad is None, (sig_of(case, bad) if bad else None), bad
 
 
 def run(ctx, drv):
